@@ -412,6 +412,15 @@ is `GetValByTID(s.tids[source])` - the `id id` instance of `SV.AggSource.valueBy
 theorem c05_x_value_by_source :
     valueBySourceCacheKeys = ["source", "source"] ∧ valueBySourceTokens = ["s.tids[source]", "s.tids[source]"] := by decide
 
+/-- **`OldestCT` is the oldest creation time of the fractions that REMAIN after retention**: every eviction
+(`shiftFirstFrac`) also drops the fraction from the local list (`fracs = fracs[1:]`) that `GetOldestFrac` is then asked
+about - so the hot-store refusal `OldestCT == 0 || OldestCT > from` of `SV.Api.grpcSearch` covers exactly what the store
+no longer holds, and the proxy turns to the cold tier for it -/
+theorem c05_x_oldest_ct_after_eviction :
+    shrinkSizesFacts = ["fracs := fm.GetAllFracs()", "for size > fm.config.TotalSize", "  outsider := fm.shiftFirstFrac()",
+      "  fracs = fracs[1:]", "if oldestByCT := fracs.GetOldestFrac(); oldestByCT != nil",
+      "newOldestCT := oldestByCT.Info().CreationTime"] := by decide
+
 /-! ## Non-vacuity: the hypotheses are met by concrete non-trivial layouts -/
 
 /-- three fractions with overlapping ranges `[10,30]`, `[5,25]`, `[20,40]`, sorted by `To` descending, each within its
